@@ -3,6 +3,7 @@
   Labels come from `blockSplit` (C08).  The shuffled block order (RandomState.shuffle) and the ShuffleSplit
   candidates are inputs of the model; the theorems hold for every order / candidate list.
 -/
+import VerdeModel.Gen.CVSplit
 import VerdeModel.Lemmas.CV
 import VerdeModel.Lemmas.Balance
 import VerdeModel.Gen.Utils
@@ -306,5 +307,83 @@ theorem src_partition_by_sum_spec (sizes : List Nat) (parts : Nat) (idx : List N
     idx.length = parts - 1 ∧ idx.Nodup ∧ idx.Pairwise (· ≤ ·) ∧ idx.head? ≠ some 0 ∧ (∀ p ∈ idx, p ≤ sizes.length) ∧ parts ≤ sizes.length := by
   rw [gen_partition_by_sum_eq_model] at h
   exact partition_by_sum_spec sizes parts idx h
+
+/-! ## `BlockKFold._iter_test_indices` / `BlockShuffleSplit._iter_test_indices` as regenerated from the source (Gen/CVSplit.lean) -/
+
+theorem gen_block_kfold_eq_model (labels : List Nat) (n : Nat) (hn : 2 ≤ n) (bal : Bool) (order : Option (List Nat)) :
+    Gen.blockKFoldTests labels n bal order = blockKFoldTests labels ⟨n, bal, order⟩ := by
+  unfold Gen.blockKFoldTests blockKFoldTests
+  have h2 : ¬ n < 2 := by omega
+  simp only [h2, if_false, gen_partition_by_sum_eq_model, bind, Except.bind, pure, Except.pure]
+  by_cases hg : n > (groupKeys (labelBound labels) labels).length
+  · simp [hg, throw, throwThe, MonadExceptOf.throw]
+  · simp only [hg, if_false]
+    cases bal with
+    | false => rfl
+    | true =>
+      simp only [if_true]
+      cases partitionBySum _ n <;> rfl
+
+theorem pointsOfBlocks_nil (labels : List Nat) : pointsOfBlocks labels [] = [] := by
+  simp [pointsOfBlocks]
+
+theorem getD_map' {α β : Type} (f : α → β) (l : List α) (i : Nat) (d : α) : (l.map f).getD i (f d) = f (l.getD i d) := by
+  simp only [List.getD_eq_getElem?_getD, List.getElem?_map]
+  cases l[i]? <;> rfl
+
+theorem gen_block_shuffle_eq_model (labels : List Nat) (n b : Nat) (hb : 1 ≤ b) (cands : List (List Nat × List Nat)) :
+    Except.ok (Gen.blockShuffleTests labels n b cands) = blockShuffleTests labels n b cands := by
+  unfold Gen.blockShuffleTests blockShuffleTests
+  have h1 : ¬ b < 1 := by omega
+  simp only [h1, if_false, bind, Except.bind, pure, Except.pure]
+  congr 1
+  apply List.map_congr_left
+  intro g _
+  simp only [List.map_map, Function.comp_def]
+  have := getD_map' (fun x : List Nat × List Nat => pointsOfBlocks labels (List.map (fun j => (groupKeys (labelBound labels) labels).getD j 0) x.2))
+    (List.take b (List.drop (g * b) cands))
+  have h0 := this (argminIdx
+        (List.map
+          (fun x : List Nat × List Nat =>
+            ratAbs
+              (((pointsOfBlocks labels
+                        (List.map (fun j => (groupKeys (labelBound labels) labels).getD j 0) x.1)).length : Rat) /
+                  ((pointsOfBlocks labels
+                        (List.map (fun j => (groupKeys (labelBound labels) labels).getD j 0) x.2)).length : Rat) -
+                (x.1.length : Rat) / (x.2.length : Rat)))
+          (List.take b (List.drop (g * b) cands)))) ([], [])
+  simp only [List.map_nil, pointsOfBlocks_nil] at h0
+  exact h0
+
+/-- **No block is split — about the source as it is now (BlockKFold):** whatever the labels, options and shuffled order, two samples with the
+    same block label are on the same side of every fold the regenerated `_iter_test_indices` yields. -/
+theorem src_kfold_never_splits_a_block (labels : List Nat) (n : Nat) (bal : Bool) (order : Option (List Nat)) (w : Bool) (tests : List (List Nat))
+    (h : Gen.blockKFoldTests labels n bal order = .ok (w, tests)) (t : List Nat) (ht : t ∈ tests)
+    (i j : Nat) (hi : i < labels.length) (hj : j < labels.length) (hsame : labels.getD i 0 = labels.getD j 0) :
+    (i ∈ t ↔ j ∈ t) ∧ (i ∈ complement labels.length t ↔ j ∈ complement labels.length t) := by
+  unfold Gen.blockKFoldTests at h
+  simp only [bind, Except.bind, pure, Except.pure] at h
+  split at h
+  · cases h
+  · simp only [Except.ok.injEq, Prod.mk.injEq] at h
+    obtain ⟨_, rfl⟩ := h
+    obtain ⟨f, _, rfl⟩ := List.mem_map.mp ht
+    exact block_never_split labels _ i j hi hj hsame
+
+/-- **No block is split — about the source as it is now (BlockShuffleSplit).** -/
+theorem src_shuffle_never_splits_a_block (labels : List Nat) (n b : Nat) (cands : List (List Nat × List Nat)) (t : List Nat)
+    (ht : t ∈ Gen.blockShuffleTests labels n b cands)
+    (i j : Nat) (hi : i < labels.length) (hj : j < labels.length) (hsame : labels.getD i 0 = labels.getD j 0) :
+    (i ∈ t ↔ j ∈ t) ∧ (i ∈ complement labels.length t ↔ j ∈ complement labels.length t) := by
+  unfold Gen.blockShuffleTests at ht
+  obtain ⟨g, _, rfl⟩ := List.mem_map.mp ht
+  simp only [List.map_map, Function.comp_def]
+  rw [List.getD_eq_getElem?_getD, List.getElem?_map]
+  cases hc : (List.take b (List.drop (g * b) cands))[argminIdx _]? with
+  | none =>
+    simp only [Option.map_none, Option.getD_none]
+    have := block_never_split labels [] i j hi hj hsame
+    rwa [pointsOfBlocks_nil] at this
+  | some c => exact block_never_split labels _ i j hi hj hsame
 
 end Verde.C11
